@@ -562,7 +562,7 @@ fn real_main(property: &str, seed: u64, tier: Tier, replay: Option<String>, runs
     let shapes: Vec<(usize, usize)> = match &replay_file {
         Some(rf) => vec![rf.shape],
         None => {
-            if quick { vec![(2, 2), (1, 1)] } else { vec![(2, 2), (1, 1), (2, 1), (1, 2), (3, 2), (2, 3), (4, 2)] }
+            if quick { if c36 { vec![(2, 2), (2, 1)] } else { vec![(2, 2), (1, 1)] } } else { vec![(2, 2), (1, 1), (2, 1), (1, 2), (3, 2), (2, 3), (4, 2)] }
         }
     };
     // observers (C18) are built for every shape in the thorough tier, for the cheapest shape only in quick
@@ -688,7 +688,7 @@ fn real_main(property: &str, seed: u64, tier: Tier, replay: Option<String>, runs
     let (rule, assumptions): (&str, Vec<String>) = if c18 {
         ("one evaluation = one simulated run in which two aggregators with different addresses (random, differing in one felt, or all-zero) load the same generated artifacts, pool real private-batch proofs, prove public batches and gossip them; every returned proof is checked at the chain, at its producer and at the other miner, as is and corrupted in flight; distinct = distinct event log (public inputs only); non-trivial = at least one public-batch proof was produced", vec!["proofs 'valid under another address' are obtained the only way they can be: produced by the other miner in the run".into()])
     } else {
-        ("one evaluation = one simulated run of the two-layer pipeline on honest inputs: deposits in a 4-ary tree under a real header, real leaf proofs split into padded private batches (slot order and dummy preimages from the RNG seam), pooled, snapshot and proved into public batches; each public proof the chain verifies is compared with a native oracle (value per account, nullifier multiset incl. H(H(u)) of dummy preimages, zero padding segments); distinct = distinct event log; non-trivial = at least one public-batch proof was produced", vec!["honest executions only: says nothing about adversarial witnesses (C06-C13 are not applicable to this technique)".into(), "shapes (N, M): quick (2,2) and (1,1); thorough adds (2,1), (1,2), (3,2), (2,3), (4,2)".into()])
+        ("one evaluation = one simulated run of the two-layer pipeline on honest inputs: deposits in a 4-ary tree under a real header, real leaf proofs split into padded private batches (slot order and dummy preimages from the RNG seam), pooled, snapshot and proved into public batches; each public proof the chain verifies is compared with a native oracle (value per account, nullifier multiset incl. H(H(u)) of dummy preimages, zero padding segments); distinct = distinct event log; non-trivial = at least one public-batch proof was produced", vec!["honest executions only: says nothing about adversarial witnesses (C06-C13 are not applicable to this technique)".into(), "shapes (N, M): quick (2,2) and (2,1); thorough adds (1,1), (2,1), (1,2), (3,2), (2,3), (4,2)".into()])
     };
     let ev = Evidence {
         property_id: property.into(),
